@@ -723,3 +723,134 @@ func c04Spec() propSpec {
 }
 
 func TestVerifC04CommittedChain(t *testing.T) { runProp(t, c04Spec()) }
+
+// ---------------------------------------------------------------------------
+// C06 (mirror part): summaries equal recomputation; < 1/3 of the power can not move the node
+
+func checkSummary(s *sim, where string, v *tmconsensus.VersionedRoundView) {
+	if v == nil || v.Height == 0 {
+		return
+	}
+	set := s.setFor(v.Height)
+	avail, perPV, perPC, totPV, totPC := recomputeSummary(set, v.PrevoteProofs, v.PrecommitProofs)
+	vs := v.VoteSummary
+	u := func(x uint64) *big.Int { return new(big.Int).SetUint64(x) }
+	if u(vs.AvailablePower).Cmp(avail) != 0 {
+		s.failf("", "available-power", "%s view %d/%d: AvailablePower %d, recomputed %s", where, v.Height, v.Round, vs.AvailablePower, avail)
+		return
+	}
+	if u(vs.TotalPrevotePower).Cmp(totPV) != 0 {
+		s.failf("", "total-prevote-power", "%s view %d/%d: TotalPrevotePower %d, recomputed over distinct signers %s", where, v.Height, v.Round, vs.TotalPrevotePower, totPV)
+		return
+	}
+	if u(vs.TotalPrecommitPower).Cmp(totPC) != 0 {
+		s.failf("", "total-precommit-power", "%s view %d/%d: TotalPrecommitPower %d, recomputed over distinct signers %s", where, v.Height, v.Round, vs.TotalPrecommitPower, totPC)
+		return
+	}
+	for kind, pair := range []struct {
+		got map[string]uint64
+		want map[string]*big.Int
+		most string
+	}{{vs.PrevoteBlockPower, perPV, vs.MostVotedPrevoteHash}, {vs.PrecommitBlockPower, perPC, vs.MostVotedPrecommitHash}} {
+		for hash, w := range pair.want {
+			if u(pair.got[hash]).Cmp(w) != 0 {
+				s.failf("", "block-power", "%s view %d/%d kind=%d hash=%s: power %d, recomputed %s", where, v.Height, v.Round, kind, hx([]byte(hash)), pair.got[hash], w)
+				return
+			}
+		}
+		for hash, g := range pair.got {
+			if _, ok := pair.want[hash]; !ok && g != 0 {
+				s.failf("", "block-power", "%s view %d/%d kind=%d: power %d reported for hash %s without any proof", where, v.Height, v.Round, kind, g, hx([]byte(hash)))
+				return
+			}
+		}
+		if want := mostVoted(pair.want); want != pair.most {
+			s.failf("", "most-voted", "%s view %d/%d kind=%d: most voted %s, recomputed %s", where, v.Height, v.Round, kind, hx([]byte(pair.most)), hx([]byte(want)))
+			return
+		}
+	}
+}
+
+func c06Oracle(s *sim, op Op, idx int) {
+	if !s.alive {
+		return
+	}
+	checkSummary(s, "voting", &s.vv)
+	checkSummary(s, "committing", &s.cv)
+	for i := len(s.gsRecv) - 1; i >= 0 && s.gsRecv[i].Step == s.step; i-- {
+		u := s.gsRecv[i].U
+		checkSummary(s, "gossip.voting", u.Voting)
+		checkSummary(s, "gossip.nextround", u.NextRound)
+		checkSummary(s, "gossip.committing", u.Committing)
+		checkSummary(s, "gossip.nilvoted", u.NilVotedRound)
+	}
+	for i := len(s.smRecv) - 1; i >= 0 && s.smRecv[i].Step == s.step; i-- {
+		checkSummary(s, "statemachine", &s.smRecv[i].V.VRV)
+		checkSummary(s, "statemachine.jumpahead", s.smRecv[i].V.JumpAheadRoundView)
+	}
+	if s.fail != nil || !s.fPhase {
+		return
+	}
+	if s.vv.Height != s.fStart[0] || uint64(s.vv.Round) != s.fStart[1] {
+		s.failf("", "minority-moved-node", "only validators %b (power %s of %s, below one third) voted since the node was at %d/%d, yet its voting position is now %d/%d",
+			s.fMask, powerOfMask(s.setFor(s.fStart[0]), s.fMask), s.setFor(s.fStart[0]).total(), s.fStart[0], s.fStart[1], s.vv.Height, s.vv.Round)
+		return
+	}
+	// when every signer in the voting view belongs to F, no total may reach one third
+	set := s.setFor(s.vv.Height)
+	onlyF := true
+	for _, m := range []map[string]gcrypto.CommonMessageSignatureProof{s.vv.PrevoteProofs, s.vv.PrecommitProofs} {
+		for _, p := range m {
+			var bs bitset.BitSet
+			p.SignatureBitSet(&bs)
+			for i, ok := bs.NextSet(0); ok; i, ok = bs.NextSet(i + 1) {
+				if s.fMask&(1<<i) == 0 {
+					onlyF = false
+				}
+			}
+		}
+	}
+	third := func(x uint64) bool { return atLeastOneThird(new(big.Int).SetUint64(x), set.total()) }
+	if onlyF && (third(s.vv.VoteSummary.TotalPrevotePower) || third(s.vv.VoteSummary.TotalPrecommitPower)) {
+		s.failf("", "minority-reaches-threshold", "validators below one third of the power produced TotalPrevotePower=%d TotalPrecommitPower=%d of %s", s.vv.VoteSummary.TotalPrevotePower, s.vv.VoteSummary.TotalPrecommitPower, set.total())
+	}
+}
+
+func c06Spec() propSpec {
+	return propSpec{
+		prop: "C06", test: "TestVerifC06MirrorMinority",
+		rule: "histories against one real Mirror: 0-3 honest macro rounds, then only a set F holding < 1/3 of the power votes (prevotes and precommits, nil / known / unknown targets, several targets per message and across messages, voting round, next round and later rounds, duplicates) interleaved with proposals and state machine entrances; after every step every VoteSummary (views, gossip and state machine outputs) is recomputed from the signer bitsets over distinct validators in math/big and the voting position must not have moved since F started voting; non-trivial = some member of F signed >= 2 targets of one kind in one round; distinct = fingerprint of (config, op list)",
+		profile: genProfile{
+			w:              map[string]int{"ph": 2, "vote": 14, "round": 3, "sment": 1, "read": 1, "stall": 1},
+			phVariants:     []int{phFresh},
+			pcpVariants:    []int{pcpExact},
+			voteCorr:       []int{vcNone},
+			replayVariants: []int{rvHonest},
+			minOps:         4, maxOps: 40,
+			dh: []int{0}, dr: []int{0, 0, 0, 1, 1, 2},
+			valChange:   []int{0},
+			multiTarget: true,
+			fOnly:       true,
+		},
+		setup: func(s *sim) {
+			s.fOnly = true
+			// sanitize F: drop members until 3*power(F) < total
+			set := s.w.genesis
+			m := s.c.Cfg.F & fullMask(len(set.Keys))
+			for i := len(set.Keys) - 1; i >= 0 && m != 0; i-- {
+				if new(big.Int).Mul(big.NewInt(3), powerOfMask(set, m)).Cmp(set.total()) < 0 {
+					break
+				}
+				m &^= 1 << uint(i)
+			}
+			if new(big.Int).Mul(big.NewInt(3), powerOfMask(set, m)).Cmp(set.total()) >= 0 {
+				m = 0
+			}
+			s.fMask = m
+		},
+		oracle: c06Oracle,
+		nontrivial: func(s *sim) bool { return s.fMask != 0 && s.labels["f-equivocation"] > 0 },
+	}
+}
+
+func TestVerifC06MirrorMinority(t *testing.T) { runProp(t, c06Spec()) }
